@@ -53,6 +53,38 @@ Theorem codec_carries_p1363 : forall (n : nat) (r s : Z),
 Proof. exact codec_ok_p1363. Qed.
 Print Assumptions codec_carries_p1363.
 
+(* the readings recorded in checks/C04.json (QUANTIFIER DECISION), as theorems.  FULL: ONE inserted or deleted byte
+   makes the length odd and the P1363 decoder rejects it, whatever the bytes *)
+Theorem p1363_single_insertion_or_deletion_rejected : forall b : bytes, Nat.even (length b) = false -> p1363_decode b = None.
+Proof. exact p1363_odd_rejected_l. Qed.
+Print Assumptions p1363_single_insertion_or_deletion_rejected.
+
+(* REFUTED for TWO positions: both halves zero-extended (one byte inserted in front of each), or both halves of a
+   signature with leading-zero scalars stripped of that byte, decode to the same (r,s) - the decoder takes any even
+   length up to 132.  Two edits, outside the property's single-position quantifier; stated so that nobody takes
+   p1363_decode_injective (equal lengths) for more than it says. *)
+Theorem p1363_two_position_padding_refuted :
+  let sg := p1363_encode 32 (2 ^ 255 + 8) (2 ^ 200 + 4) in
+  let ext := 0 :: firstn 32 sg ++ 0 :: skipn 32 sg in
+  let z := p1363_encode 32 77 (2 ^ 240) in
+  let cut := skipn 1 (firstn 32 z) ++ skipn 1 (skipn 32 z) in
+  ext <> sg /\ p1363_decode ext = p1363_decode sg /\ p1363_decode sg = Some (2 ^ 255 + 8, 2 ^ 200 + 4) /\
+  cut <> z /\ length cut = 62%nat /\ p1363_decode cut = p1363_decode z /\ p1363_decode z = Some (77, 2 ^ 240).
+Proof. vm_compute. repeat split; discriminate. Qed.
+Print Assumptions p1363_two_position_padding_refuted.
+
+(* REFUTED beyond the codec: (r, n - s) is another VALUE; the codecs carry it like any other (both encode and decode),
+   so whether it verifies is the core scheme's business (ECDSA: it does) - the hypothesis `a signature value is bound to
+   key and message` of other_key_or_message_rejected / altered_signature_accepted_only_if_core_forgery is about VALUES
+   produced by core_sign, and (r, n-s) changes 32 bytes, not one position *)
+Theorem codec_carries_the_negated_s_value_refuted :
+  let n := 115792089210356248762697446949407573529996955224135760342422259061068512044369%Z in   (* order of P-256 *)
+  let r := (2 ^ 255 + 8)%Z in let s := (2 ^ 254 + 4)%Z in
+  dec_sig (EncP1363 32) (p1363_encode 32 (Z.to_N r) (Z.to_N (n - s))) = Some (SRS r (n - s)) /\
+  der_decode (der_encode r (n - s)) = Some (r, n - s)%Z /\ (n - s <> s)%Z.
+Proof. vm_compute. repeat split; discriminate. Qed.
+Print Assumptions codec_carries_the_negated_s_value_refuted.
+
 (* ===== the generated key-type table (regenerated from /repo on every run) ===== *)
 
 (* table_total + prefix_consistent: every signing key type the KMS can create is exportable and re-importable, has the
